@@ -113,6 +113,7 @@ func worldC09(w *World) {
 		ws         bool
 		connNamed  bool
 		upgrade    bool
+		oddNames   bool
 	}
 	reqs := make([]*creq, n)
 	fp := NewFakeProxy(w)
@@ -138,11 +139,17 @@ func worldC09(w *World) {
 		}
 		c.ws = shim && t.Rare(1, 2, "ws?")
 		var hdr []string
+		// (some clients put a space between a header name and the colon)
+		sp := []string{"", "", "", " "}[t.Choice(4, "namespace")]
 		for _, v := range c.forgedUser {
-			hdr = append(hdr, c.forgedName+": "+v)
+			hdr = append(hdr, c.forgedName+sp+": "+v)
 		}
 		for _, v := range c.auth {
-			hdr = append(hdr, c.authName+": "+v)
+			hdr = append(hdr, c.authName+sp+": "+v)
+		}
+		if sp != "" && (len(c.forgedUser) > 0 || len(c.auth) > 0) {
+			c.oddNames = true // (such a request may be refused as a whole)
+			w.Probe("header_name_followed_by_space")
 		}
 		hdr = append(hdr, "X-Token: "+c.id)
 		// a plain (non-shim) protocol upgrade request
@@ -172,7 +179,8 @@ func worldC09(w *World) {
 			body := "ws://example.test/socket?t=" + c.id
 			raw = fmt.Sprintf("POST /shim/open HTTP/1.1\r\nHost: example.test\r\n%s\r\nContent-Length: %d\r\n\r\n%s", strings.Join(hdr, "\r\n"), len(body), body)
 		} else {
-			raw = fmt.Sprintf("GET /p/%s HTTP/1.1\r\nHost: example.test\r\n%s\r\n\r\n", c.id, strings.Join(hdr, "\r\n"))
+			path := []string{"/p/" + c.id, "/p/" + c.id, "/shim-assets/app.js?t=" + c.id, "/shimmed/" + c.id, "/shim.json"}[t.Choice(5, "plainpath")]
+			raw = fmt.Sprintf("GET %s HTTP/1.1\r\nHost: example.test\r\n%s\r\n\r\n", path, strings.Join(hdr, "\r\n"))
 		}
 		fp.AddRequest(c.id, []byte(raw), c.user)
 		reqs[i] = c
@@ -267,7 +275,9 @@ func worldC09(w *World) {
 		for _, c := range reqs {
 			seen := byTok[c.id]
 			if len(seen) == 0 {
-				w.Violation("progress", "request %s (ws=%v) never reached the backend", c.id, c.ws)
+				if !c.oddNames {
+					w.Violation("progress", "request %s (ws=%v) never reached the backend", c.id, c.ws)
+				}
 				continue
 			}
 			for _, s := range seen {
@@ -278,7 +288,7 @@ func worldC09(w *World) {
 				if forward {
 					var vals []string
 					for k, vs := range s.Header {
-						if strings.EqualFold(k, "X-Inverting-Proxy-User-ID") {
+						if strings.EqualFold(strings.TrimSpace(k), "X-Inverting-Proxy-User-ID") {
 							vals = append(vals, vs...)
 						}
 					}
@@ -289,7 +299,7 @@ func worldC09(w *World) {
 				}
 				if strip {
 					for k, vs := range s.Header {
-						if strings.EqualFold(k, "Authorization") {
+						if strings.EqualFold(strings.TrimSpace(k), "Authorization") {
 							w.Violation("credentials", "%s for %s: backend received %s: %q with credential stripping enabled", kind, c.id, k, vs)
 						}
 					}
